@@ -654,16 +654,21 @@ def sign_refusals(rep, idx, rule):
     the documented condition (a `<= 0` or `< 1` refuses the legal value 0)."""
     from .common import raise_sites, _formula, int_canon, check_refusal, Undecided
     from ..core import dl
-    specs = []
-    try:
-        idx.find_func("MemoryMap._compute_addr_range")
-        specs.append(("MemoryMap._compute_addr_range", [("addr", "addr is not None and (not isinstance(addr, int) or addr < 0)"),
-                                                        ("size", "not isinstance(size, int) or size < 0")]))
-    except Exception:
-        pass
-    specs.append(("MemoryMap.align_to", [("alignment", "not isinstance(alignment, int) or alignment < 0")]))
-    for spec, docs in specs:
-        c = get_fn(idx, spec)
+    from ..core import canon
+    specs = [("MemoryMap.add_resource", [("addr", "addr is not None and (not isinstance(addr, int) or addr < 0)"),
+                                         ("size", "not isinstance(size, int) or size < 0")], True),
+             ("MemoryMap.add_window", [("addr", "addr is not None and (not isinstance(addr, int) or addr < 0)")], True),
+             ("MemoryMap.align_to", [("alignment", "not isinstance(alignment, int) or alignment < 0")], False)]
+    for spec, docs, flatten in specs:
+        if flatten:
+            # the placement helper (and whatever it was split into) opened in place: the refusals are the API function's, wherever written
+            try:
+                c = flat_ctx(idx, canon.flatten_function(idx, idx.find_func(spec), exclude=("_align_up",)))
+            except Exception as e:
+                rep.unk(rule, "-", f"{spec}: sign / type refusals", f"flattened view failed: {type(e).__name__}: {e}")
+                continue
+        else:
+            c = get_fn(idx, spec)
         site = c.fi.site
         for pname, text in docs:
             if pname not in c.fi.params:
